@@ -551,6 +551,7 @@ type genOpts struct {
 	byz         []int    // creators with lying clocks
 	txKinds     bool     // exotic transaction payloads
 	burst       bool     // bursts of events without other-parent
+	idle        bool     // a long phase without transactions in the middle of the run
 	eagerPause  bool     // an eager joiner is silent around its first round
 	eagerJoiner bool     // joiners create events before their accepted round (no honest core does)
 	joinEarly   bool     // joins are requested in the first steps (long life as validators afterwards)
@@ -630,6 +631,7 @@ func randomOpts(rng *rand.Rand, thorough bool, dynamic bool) genOpts {
 	}
 	o.txKinds = rng.Intn(3) == 0
 	o.txRate = 2 + rng.Intn(4)
+	o.idle = rng.Intn(3) == 0
 	if o.n0 >= 4 && rng.Intn(2) == 0 {
 		nb := (o.n0 - 1) / 3
 		for len(o.byz) < nb {
@@ -947,6 +949,9 @@ func generate(rng *rand.Rand, o genOpts, c *Case, ref *hnode) *dag {
 		ntx := 0
 		if rng.Intn(o.txRate) == 0 {
 			ntx = 1 + rng.Intn(2)
+		}
+		if o.idle && count > o.steps/5 && count < (3*o.steps)/5 {
+			ntx = 0 // an idle network: rounds go by without transactions, hence without blocks
 		}
 		txKind := 0
 		if o.txKinds {
